@@ -11,7 +11,8 @@
 (* observed actions and as invariants that are evaluated at *checkpoints*   *)
 (* (phase = "check": after the node has reacted to a block or an API call). *)
 (*   C06  JusticeCovers, CheaterKeepsNothing, swept and reported            *)
-(*   C07  OnlyValidFinal, NoEntitledOutputIdle, FeeMonotone, BalancesAddUp, *)
+(*   C07  OnlyValidFinal, NoEntitledOutputIdle, FeeMonotone (replacement     *)
+(*        transactions and BumpTransactionEvent requests), BalancesAddUp,   *)
 (*        drains to nothing, everything won is reported and spendable       *)
 (* Nodes are 0 and 1; sender 2 is the would-be cheater's old-state monitor  *)
 (* (transactions of the revoked state), 3 the harness (honest third party   *)
@@ -42,14 +43,19 @@ VARIABLES
   handed,   \* <<outpoints reported to node 0 in SpendableOutputs, same for node 1>>
   bal,      \* <<last balances reported by node 0, by node 1>>  (sequences of records)
   starved,  \* <<a live claim of node 0 was left out of a block, same for node 1>>
+  asked,    \* [<<node, claim id>> -> feerate last requested for that claim in a BumpTransactionEvent]
+  rb,       \* [n |-> the node just asked to rebroadcast its pending claims (-1: nobody),
+            \*  cov |-> the channel outpoints its broadcasts / bump requests have covered since]
   phase     \* "op" | "check" | "final"
 
-ovars == <<par, height, txs, conf, com, known, handed, bal, starved, phase>>
+ovars == <<par, height, txs, conf, com, known, handed, bal, starved, asked, rb, phase>>
+NoRb == [n |-> -1, cov |-> {}]
 
 OInit ==
   /\ par = [kind |-> "none", live |-> {}, owner |-> 0, delays |-> <<0, 0>>, anti_reorg |-> 6, chan_type |-> ""]
   /\ height = 0 /\ txs = <<>> /\ conf = <<>> /\ com = NoCom
   /\ known = <<{}, {}>> /\ handed = <<{}, {}>> /\ bal = <<<<>>, <<>>>> /\ starved = <<FALSE, FALSE>>
+  /\ asked = <<>> /\ rb = NoRb
   /\ phase = "op"
 
 ToSet(s) == {s[k] : k \in 1..Len(s)}
@@ -114,12 +120,21 @@ CheaterKeepsNothing ==
 
 \* ------------------------------------------------------------ C07
 \* every entitled, mature, unspent HTLC output has a live claim
+Entitled(n, r) == \/ (Outbound(n, r) /\ height >= r.exp)
+                  \/ (Inbound(n, r) /\ r.hash \in known[n + 1] /\ height < r.exp)
 NoEntitledOutputIdle ==
   (phase = "check" /\ HasCom /\ ~com.revoked) =>
      G7(\A n \in par.live : \A r \in {x \in Outs : IsHtlc(x)} :
-          (~Spent(OP(r)) /\ r.amt >= Uneconomic) =>
-             /\ (Outbound(n, r) /\ height >= r.exp) => HasLiveClaim(n, OP(r))
-             /\ (Inbound(n, r) /\ r.hash \in known[n + 1] /\ height < r.exp) => HasLiveClaim(n, OP(r)))
+          (~Spent(OP(r)) /\ r.amt >= Uneconomic /\ Entitled(n, r)) => HasLiveClaim(n, OP(r)))
+
+\* ... and the monitor keeps pursuing it until it confirms: when the application asks for the pending
+\* claims to be rebroadcast (ChainMonitor::rebroadcast_pending_claims, "ensuring reliability if
+\* broadcasting fails"), every such output is covered again by a broadcast or a bump request --
+\* a claim broadcast once and then forgotten (never re-announced, never fee-bumped) does not count.
+RebroadcastCovers ==
+  (phase = "check" /\ HasCom /\ ~com.revoked /\ rb.n \in par.live) =>
+     G7(\A r \in {x \in Outs : IsHtlc(x)} :
+          (~Spent(OP(r)) /\ r.amt >= Uneconomic /\ Entitled(rb.n, r)) => OP(r) \in rb.cov)
 
 \* --- balances
 Counted == {"awaiting", "contentious", "maybe_timeout", "revoked", "on_close"}
@@ -168,11 +183,15 @@ Open(p) ==
   /\ par' = p /\ height' = p.h /\ phase' = "op"
   /\ txs' = <<>> /\ conf' = <<>> /\ com' = NoCom
   /\ known' = <<{}, {}>> /\ handed' = <<{}, {}>> /\ bal' = <<<<>>, <<>>>> /\ starved' = <<FALSE, FALSE>>
+  /\ asked' = <<>> /\ rb' = NoRb
 
 FeeTol(f) == 2 + f \div 50
 \* a transaction is handed to the broadcaster by `by`
 Bcast(t, rec) ==
   /\ phase' = "op"
+  /\ rb' = IF rec.by = rb.n
+             THEN [rb EXCEPT !.cov = @ \cup {rec.ins[k] : k \in {j \in 1..Len(rec.ins) : ~rec.wal[j]}}]
+             ELSE rb
   /\ IF rec.dup
        THEN UNCHANGED txs
        ELSE /\ t \notin DOMAIN txs
@@ -189,12 +208,26 @@ Bcast(t, rec) ==
                                    (txs[e].by = rec.by /\ ~txs[e].sweep /\ ChanIns(e) # {} /\ ChanIns(e) = cins)
                                      => rec.feerate + FeeTol(rec.feerate) >= txs[e].feerate
                     IN G6(Mono) /\ G7(Mono)
-  /\ UNCHANGED <<par, height, conf, com, known, handed, bal, starved>>
+  /\ UNCHANGED <<par, height, conf, com, known, handed, bal, starved, asked>>
+
+\* A BumpTransactionEvent of node n (anchor channels: the monitor asks the application to attach fees
+\* to its commitment transaction -- ChannelClose -- or to its zero-fee HTLC transactions --
+\* HTLCResolution).  `c` is the event's claim id (events.rs: "a new claim with the same identifier ...
+\* resulting in a fee-bumping attempt"), `ops` the channel outpoints the requested transaction spends.
+\* FeeMonotone for externally funded claims: as long as none of those outputs has a confirmed spend,
+\* the feerate requested for one claim never goes down, whatever the fee estimator said in between.
+Bump(n, c, target, ops) ==
+  /\ phase' = "op"
+  /\ LET Mono == (<<n, c>> \in DOMAIN asked /\ \A o \in ops : ~Spent(o)) => target >= asked[<<n, c>>]
+     IN n \in par.live => (G6(Mono) /\ G7(Mono))
+  /\ asked' = [x \in DOMAIN asked \cup {<<n, c>>} |-> IF x = <<n, c>> THEN target ELSE asked[x]]
+  /\ rb' = IF n = rb.n THEN [rb EXCEPT !.cov = @ \cup ops] ELSE rb
+  /\ UNCHANGED <<par, height, txs, conf, com, known, handed, bal, starved>>
 
 Commit(c) ==
   /\ ~HasCom /\ com' = c /\ phase' = "op"
   /\ known' = c.known
-  /\ UNCHANGED <<par, height, txs, conf, handed, bal, starved>>
+  /\ UNCHANGED <<par, height, txs, conf, handed, bal, starved, asked>> /\ rb' = NoRb
 
 \* was a live claim of node n left out?
 LeftOut(n, ids) == \E t \in DOMAIN txs :
@@ -205,22 +238,34 @@ Block(h, ids) ==
   /\ ids \subseteq DOMAIN txs
   /\ conf' = [x \in DOMAIN conf \cup ids |-> IF x \in DOMAIN conf THEN conf[x] ELSE h]
   /\ starved' = <<starved[1] \/ LeftOut(0, ids), starved[2] \/ LeftOut(1, ids)>>
-  /\ UNCHANGED <<par, txs, com, known, handed, bal>>
+  /\ UNCHANGED <<par, txs, com, known, handed, bal, asked>> /\ rb' = NoRb
 
 Idle(from, h) ==
   /\ from = height + 1 /\ h >= from /\ height' = h /\ phase' = "check"
   /\ starved' = <<starved[1] \/ LeftOut(0, {}), starved[2] \/ LeftOut(1, {})>>
-  /\ UNCHANGED <<par, txs, conf, com, known, handed, bal>>
+  /\ UNCHANGED <<par, txs, conf, com, known, handed, bal, asked>> /\ rb' = NoRb
 
 \* several empty blocks of which the node is only told the last (no checkpoint in between)
 Jump(from, h) ==
   /\ from = height + 1 /\ h >= from /\ height' = h /\ phase' = "op"
   /\ starved' = <<starved[1] \/ LeftOut(0, {}), starved[2] \/ LeftOut(1, {})>>
-  /\ UNCHANGED <<par, txs, conf, com, known, handed, bal>>
+  /\ UNCHANGED <<par, txs, conf, com, known, handed, bal, asked>> /\ rb' = NoRb
 
 Preimage(n, hash) ==
   /\ known' = [known EXCEPT ![n + 1] = @ \cup {hash}] /\ phase' = "op"
-  /\ UNCHANGED <<par, height, txs, conf, com, handed, bal, starved>>
+  /\ UNCHANGED <<par, height, txs, conf, com, handed, bal, starved, asked>> /\ rb' = NoRb
+
+\* the tip is reorganised away down to height h; no transaction of the run was confirmed above h
+\* (reorganisations that unconfirm transactions are C11's subject)
+Rewind(h) ==
+  /\ h < height /\ \A t \in DOMAIN conf : conf[t] <= h
+  /\ height' = h /\ phase' = "op" /\ rb' = NoRb
+  /\ UNCHANGED <<par, txs, conf, com, known, handed, bal, starved, asked>>
+
+\* the application asks node n to rebroadcast its pending claims
+Rebroadcast(n) ==
+  /\ rb' = [n |-> n, cov |-> {}] /\ phase' = "op"
+  /\ UNCHANGED <<par, height, txs, conf, com, known, handed, bal, starved, asked>>
 
 \* SpendableOutputs: each descriptor names a real, confirmed output with its real value
 Spendable(n, ds) ==
@@ -228,7 +273,7 @@ Spendable(n, ds) ==
   /\ G7(\A d \in ToSet(ds) : d.confirmed /\ d.amt = d.real_amt /\ d.op \notin handed[n + 1])
   /\ G6(\A d \in ToSet(ds) : d.confirmed /\ d.amt = d.real_amt)
   /\ handed' = [handed EXCEPT ![n + 1] = @ \cup {d.op : d \in ToSet(ds)}]
-  /\ UNCHANGED <<par, height, txs, conf, com, known, bal, starved>>
+  /\ UNCHANGED <<par, height, txs, conf, com, known, bal, starved, asked, rb>>
 
 \* the node's keys can actually spend what was reported
 Sweep(n, t, rec, good) ==
@@ -237,24 +282,24 @@ Sweep(n, t, rec, good) ==
   /\ IF good /\ t \notin DOMAIN txs
        THEN txs' = [x \in DOMAIN txs \cup {t} |-> IF x = t THEN rec ELSE txs[x]]
        ELSE UNCHANGED txs
-  /\ UNCHANGED <<par, height, conf, com, known, handed, bal, starved>>
+  /\ UNCHANGED <<par, height, conf, com, known, handed, bal, starved, asked, rb>>
 
 Balances(n, items) ==
   /\ bal' = [bal EXCEPT ![n + 1] = items] /\ phase' = "op"
-  /\ UNCHANGED <<par, height, txs, conf, com, known, handed, starved>>
+  /\ UNCHANGED <<par, height, txs, conf, com, known, handed, starved, asked, rb>>
 
 Checkpoint(h) ==
   /\ h = height /\ phase' = "check"
-  /\ UNCHANGED <<par, height, txs, conf, com, known, handed, bal, starved>>
+  /\ UNCHANGED <<par, height, txs, conf, com, known, handed, bal, starved, asked, rb>>
 
 Final(f) ==
   /\ phase' = "final"
   \* bounded liveness: under fair mining everything is over within the settle horizon
   /\ G7((HasCom /\ ~com.revoked) => (f.unswept = 0 /\ Len(f.mempool_left) = 0))
   /\ G6((HasCom /\ com.revoked) => (f.unswept = 0 /\ Len(f.mempool_left) = 0))
-  /\ UNCHANGED <<par, height, txs, conf, com, known, handed, bal, starved>>
+  /\ UNCHANGED <<par, height, txs, conf, com, known, handed, bal, starved, asked>> /\ rb' = NoRb
 
-Silent == phase' = "op" /\ UNCHANGED <<par, height, txs, conf, com, known, handed, bal, starved>>
+Silent == phase' = "op" /\ UNCHANGED <<par, height, txs, conf, com, known, handed, bal, starved, asked, rb>>
 
 TypeOK ==
   /\ phase \in {"op", "check", "final"}
